@@ -587,3 +587,35 @@ def cart_change_pitch_rescales_only_any_planar_offset(i: int, j: int, w: float, 
     assert g.pitch == (w2, h2)
     assert g._bounds == (None, None, None)
     assert g._unitStepLimits == ((-3, 3), (-3, 3), (0, 1))
+
+
+@lemma(gen={"w": (0.05, 30.0), "h": (0.05, 30.0), "w2": (0.05, 30.0), "h2": (0.05, 30.0), "i": (-40, 40), "j": (-40, 40)})
+def cart_change_pitch_inside_a_backup_scope_is_undone_by_the_restore(i: int, j: int, w: float, h: float, w2: float, h2: float, ox: float, oy: float, oz: float):
+    """backUp(); changePitch(..); restoreBackup(): pitch AND coordinates are those of before - the state the back-up holds
+    must not be rewritten by the pitch change (an offset array updated in place is shared with the back-up)"""
+    assume(w > 0 and h > 0 and w2 > 0 and h2 > 0)  # (P) pitches are lengths
+    g = cartgrid_at(w, h, ox, oy, oz)
+    g._backup = None
+    c1 = g.getCoordinates((i, j, 0))
+    g.backUp()
+    g.changePitch(w2, h2)
+    c2 = g.getCoordinates((i, j, 0))
+    assert eq(c2[0] * w, c1[0] * w2) and eq(c2[1] * h, c1[1] * h2) and eq(c2[2], c1[2]), "inside the scope: rescaled"
+    g.restoreBackup()
+    c3 = g.getCoordinates((i, j, 0))
+    assert g.pitch == (w, h), "the pitch is back"
+    assert eq(c3[0], c1[0]) and eq(c3[1], c1[1]) and eq(c3[2], c1[2]), "and so is every coordinate"
+
+
+@lemma(gen={"i": (-40, 40), "j": (-40, 40), "ox": (-3, 3), "oy": (-3, 3), "w2": (0.05, 30.0), "h2": (0.05, 30.0)})
+def cart_change_pitch_rescales_an_offset_given_in_whole_numbers(i: int, j: int, ox: int, oy: int, w2: float, h2: float):
+    """a grid built by the REAL constructor with an offset given as integers (np.array keeps them as an integer array):
+    after changePitch the centre offset is the exactly rescaled one, not a value truncated to a whole number"""
+    assume(w2 > 0 and h2 > 0)
+    ox = choose(ox, -3, 3)
+    oy = choose(oy, -3, 3)
+    g = CartesianGrid(unitSteps=((2.0, 0, 0), (0, 2.0, 0), (0, 0, 0)), unitStepLimits=((-3, 3), (-3, 3), (0, 1)), offset=(ox, oy, 0))
+    c1 = g.getCoordinates((i, j, 0))
+    g.changePitch(w2, h2)
+    c2 = g.getCoordinates((i, j, 0))
+    assert eq(c2[0] * 2.0, c1[0] * w2) and eq(c2[1] * 2.0, c1[1] * h2) and eq(c2[2], c1[2]), "coordinates are rescaled exactly"
